@@ -333,3 +333,82 @@ def _use_is_harmless(name_node, par, parents, init):
     if isinstance(par, ast.BinOp) and isinstance(par.op, ast.Add):
         return init is not None and _elements_immutable(init)
     return False
+
+
+# ---------------------------------------------------------------------------------------------------------------------
+# Source-frame obligations of the front-end adapters (C06): a function of rbql_pandas / rbql_sqlite never writes THROUGH a
+# handle to a caller-owned source (dataframe, connection, table): no `h.attr = v`, `h[...] = v`, `del h[...]`, `h.attr += v`,
+# no call of a mutating method on h, no pandas call with inplace=True on h.  Handles are: every parameter other than self,
+# `self.<f>` for every field that some method assigns directly from a parameter, and a local bound directly to a handle.
+# Every flagged statement is a definite write to the source object (deny-list), so a refutation is never a guess; what the
+# rule cannot see is a write inside a library call (A-DEP: pandas / sqlite3 read paths do not modify their object).
+SOURCE_ADAPTER_MODULES = ('rbql_pandas', 'rbql_sqlite')
+PANDAS_MUTATORS = set(['drop_duplicates', 'dropna', 'fillna', 'rename', 'reset_index', 'set_index', 'sort_values', 'sort_index', 'replace',
+                       'drop', 'set_axis', 'rename_axis', 'interpolate', 'clip', 'where', 'mask', 'eval', 'query'])      # mutate only with inplace=True
+DEFINITE_MUTATORS = MUTATORS | set(['insert', 'update', 'commit', 'rollback', 'executescript', 'executemany', 'create_function', 'set_trace_callback'])
+
+
+def source_frames(program, modules=SOURCE_ADAPTER_MODULES):
+    obs = []
+    for m in modules:
+        mi = program.modules.get(m)
+        if mi is None:
+            continue
+        # fields assigned directly from a parameter anywhere in the class: self.f = <param>
+        handle_fields = {}
+        for q in sorted(program.functions):
+            fmi, fn, parent = program.functions[q]
+            if fmi.name != m:
+                continue
+            params = set(a.arg for a in list(getattr(fn.args, 'posonlyargs', [])) + list(fn.args.args) + list(fn.args.kwonlyargs)) - set(['self'])
+            cls = q.rsplit('.', 1)[0]
+            for n in _own_nodes(fn):
+                if isinstance(n, ast.Assign) and isinstance(n.value, ast.Name) and n.value.id in params:
+                    for t in n.targets:
+                        if isinstance(t, ast.Attribute) and isinstance(t.value, ast.Name) and t.value.id == 'self':
+                            handle_fields.setdefault(cls, set()).add(t.attr)
+        for q in sorted(program.functions):
+            fmi, fn, parent = program.functions[q]
+            if fmi.name != m:
+                continue
+            cls = q.rsplit('.', 1)[0]
+            params = set(a.arg for a in list(getattr(fn.args, 'posonlyargs', [])) + list(fn.args.args) + list(fn.args.kwonlyargs)) - set(['self'])
+            fields = handle_fields.get(cls, set())
+            aliases = set()
+
+            def is_handle(e):
+                if isinstance(e, ast.Name):
+                    return e.id in params or e.id in aliases
+                if isinstance(e, ast.Attribute) and isinstance(e.value, ast.Name) and e.value.id == 'self':
+                    return e.attr in fields
+                return False
+            nodes = list(_own_nodes(fn))
+            for n in nodes:         # locals bound directly to a handle
+                if isinstance(n, ast.Assign) and is_handle(n.value):
+                    for t in n.targets:
+                        if isinstance(t, ast.Name):
+                            aliases.add(t.id)
+            found = []
+            for n in nodes:
+                targets = []
+                if isinstance(n, ast.Assign):
+                    targets = n.targets
+                elif isinstance(n, (ast.AugAssign, ast.AnnAssign)):
+                    targets = [n.target]
+                elif isinstance(n, ast.Delete):
+                    targets = n.targets
+                for t in targets:
+                    for tt in (t.elts if isinstance(t, (ast.Tuple, ast.List)) else [t]):
+                        if isinstance(tt, (ast.Attribute, ast.Subscript)) and is_handle(tt.value):
+                            if isinstance(tt.value, ast.Name) and tt.value.id == 'self':
+                                continue
+                            found.append((n.lineno, 'stores through the source handle `%s`' % ast.unparse(tt)))
+                if isinstance(n, ast.Call) and isinstance(n.func, ast.Attribute) and is_handle(n.func.value):
+                    meth = n.func.attr
+                    inplace = any(kw.arg == 'inplace' and not (isinstance(kw.value, ast.Constant) and kw.value.value is False) for kw in n.keywords)
+                    if meth in DEFINITE_MUTATORS or (meth in PANDAS_MUTATORS and inplace) or inplace:
+                        found.append((n.lineno, 'calls the mutating method `%s` on a source handle' % ast.unparse(n.func)))
+            loc = [fn.lineno, fn.end_lineno]
+            obs.append({'name': 'C06.source_frame.%s' % q, 'function': q, 'status': 'refuted' if found else 'discharged', 'lines': loc,
+                        'note': '; '.join('line %d: %s' % f for f in found) if found else 'no store, delete, augmented store or mutating call through a parameter, a field holding one, or a local alias of one'})
+    return obs
